@@ -30,6 +30,8 @@ type Obligation struct {
 	Model    string  `json:"model,omitempty"`
 	Output   string  `json:"output,omitempty"`
 	SMTFile  string  `json:"smt_file,omitempty"`
+	Inputs   map[string]string `json:"model_inputs,omitempty"` // concretisation mode: values of the function's inputs in the model
+	inputs   []inputTerm
 	Vacuity  bool    `json:"vacuity,omitempty"` // expected sat
 	Trivial  bool    `json:"trivial,omitempty"` // goal simplified to true syntactically
 	PathHint string  `json:"path_hint,omitempty"`
@@ -45,6 +47,7 @@ type State struct {
 	defers []deferEntry
 	held   map[string]string // lock ghost: key -> Bool term
 	mapVer string            // version of all map contents (bumped by map updates and unknown calls)
+	regs   map[ssa.Value]Val // SSA registers defined on the way to this state
 }
 
 func (s *State) clone() *State {
@@ -66,6 +69,10 @@ func (s *State) clone() *State {
 		n.held[k] = v
 	}
 	n.defers = append([]deferEntry(nil), s.defers...)
+	n.regs = make(map[ssa.Value]Val, len(s.regs)+8)
+	for k, v := range s.regs {
+		n.regs[k] = v
+	}
 	return n
 }
 
@@ -73,6 +80,7 @@ func (s *State) clone() *State {
 type deferEntry struct {
 	d     *ssa.Defer
 	guard string
+	vals  map[ssa.Value]Val // operands of the deferred call, evaluated when the defer statement ran
 }
 
 type edge struct {
@@ -146,6 +154,10 @@ type Gen struct {
 	assertUse map[*Clause]int
 	setAtUse  map[*SetClause]int
 	freeVarNames map[string]bool
+	inputCache []inputTerm
+	unroll    int // > 0: concretisation mode (bounded unrolling instead of loop cutting)
+	curIter   int
+	uincoming map[unode][]edge
 	specFacts []string
 	inQuant   int
 	incoming map[*ssa.BasicBlock][]edge
@@ -294,6 +306,12 @@ func (g *Gen) run() (err error) {
 	}()
 	g.findLoops()
 	g.findEscaping()
+	if g.unroll > 0 {
+		g.discovery = false
+		g.reset()
+		g.execAll()
+		return nil
+	}
 	// pass 1: discover what each loop writes
 	g.discovery = true
 	g.execAll()
@@ -523,7 +541,8 @@ func (g *Gen) summariseLoops() {
 func (g *Gen) execAll() {
 	fn := g.fn
 	g.emit("; function " + fn.String())
-	st := &State{pc: "true", cells: map[*ssa.Alloc]Val{}, heap: map[string]string{}, epoch: "0", ghosts: map[string]Val{}, held: map[string]string{}}
+	st := &State{pc: "true", cells: map[*ssa.Alloc]Val{}, heap: map[string]string{}, epoch: "0", ghosts: map[string]Val{}, held: map[string]string{}, regs: map[ssa.Value]Val{}}
+	g.regs = st.regs
 	st.ac = g.fresh("ac", "Int")
 	g.emit("(assert (< 0 " + st.ac + "))")
 	st.mapVer = "0"
@@ -613,8 +632,43 @@ func (g *Gen) execAll() {
 	g.runBlocks(st)
 }
 
+type unode struct {
+	b *ssa.BasicBlock
+	k int
+}
+
+// runBlocksUnrolled: bounded symbolic execution for CONCRETISATION ONLY.  Loops are not cut: a back edge
+// leads to the next copy of the loop head, at most g.unroll back edges are followed on any path, paths that
+// would need more are dropped.  Every model of a query produced here is an execution prefix of the real
+// function from its entry, so the values of the parameters in the model are a real input.
+func (g *Gen) runBlocksUnrolled(st *State) {
+	fn := g.fn
+	order := g.topo()
+	inc := map[unode][]edge{}
+	inc[unode{fn.Blocks[0], 0}] = []edge{{nil, st, st.pc}}
+	saveInc := g.uincoming
+	g.uincoming = inc
+	defer func() { g.uincoming = saveInc }()
+	for k := 0; k <= g.unroll; k++ {
+		for _, b := range order {
+			ins := inc[unode{b, k}]
+			if len(ins) == 0 {
+				continue
+			}
+			g.curBlock = b
+			g.curIter = k
+			cur := g.join(b, ins)
+			g.execBlock(b, cur)
+		}
+	}
+}
+
 // runBlocks executes the loop-cut DAG of g.fn starting from st.
 func (g *Gen) runBlocks(st *State) {
+	if g.unroll > 0 {
+		g.runBlocksUnrolled(st)
+		return
+	}
 	fn := g.fn
 	order := g.topo()
 	g.incoming = map[*ssa.BasicBlock][]edge{}
@@ -665,23 +719,24 @@ func (g *Gen) inlineCall(st *State, fn *ssa.Function, args []Val, binds []Val, r
 		g.summariseLoops()
 	}
 	g.paramVals = map[string]Val{}
+	start := st.clone()
 	for i, p := range fn.Params {
 		if i < len(args) {
-			g.regs[p] = args[i]
+			start.regs[p] = args[i]
 			g.paramVals[p.Name()] = args[i]
 		}
 	}
 	for i, fv := range fn.FreeVars {
 		if i < len(binds) {
-			g.regs[fv] = binds[i]
+			start.regs[fv] = binds[i]
 			g.paramVals[fv.Name()] = binds[i]
 			g.freeVarNames[fv.Name()] = true
 		}
 	}
 	var rets []inlineRet
 	g.inlineRets = &rets
-	start := st.clone()
 	g.runBlocks(start)
+	g.regs = st.regs
 	// restore
 	g.fn, g.spec, g.loops, g.escaping, g.localNames, g.incoming, g.curBlock, g.inlineRets, g.paramVals, g.curPos = sFn, sSpec, sLoops, sEsc, sNames, sInc, sBlk, sRets, sPV, sPos
 	g.blockStack = sStack
@@ -703,7 +758,13 @@ func (g *Gen) inlineCall(st *State, fn *ssa.Function, args []Val, binds []Val, r
 		conds = append(conds, r.st.pc)
 	}
 	merged := g.join(nil, ins)
+	callerRegs := st.regs
 	*st = *merged
+	// registers of the callee are not visible to the caller; the caller's own registers survive
+	for k, v := range callerRegs {
+		st.regs[k] = v
+	}
+	g.regs = st.regs
 	st.defers = callerDefers
 	nres := len(rets[0].results)
 	if nres > 0 {
@@ -850,6 +911,32 @@ func (g *Gen) join(b *ssa.BasicBlock, ins []edge) *State {
 		}
 		res.cells[c] = g.mergeVals(c.Comment, c.Type().(*types.Pointer).Elem(), vals, conds)
 	}
+	// registers defined on every incoming path
+	res.regs = map[ssa.Value]Val{}
+	for r, v0 := range ins[0].st.regs {
+		vals := []Val{v0}
+		ok := true
+		same := true
+		for _, e := range ins[1:] {
+			v, has := e.st.regs[r]
+			if !has {
+				ok = false
+				break
+			}
+			if same && fmt.Sprint(v) != fmt.Sprint(v0) {
+				same = false
+			}
+			vals = append(vals, v)
+		}
+		if !ok {
+			continue
+		}
+		if same {
+			res.regs[r] = v0
+		} else {
+			res.regs[r] = g.mergeVals("reg", r.Type(), vals, conds)
+		}
+	}
 	// ghosts
 	res.ghosts = map[string]Val{}
 	for name, v0 := range ins[0].st.ghosts {
@@ -881,7 +968,7 @@ func (g *Gen) join(b *ssa.BasicBlock, ins []edge) *State {
 				break
 			}
 			for i := range e.st.defers {
-				if e.st.defers[i] != ins[0].st.defers[i] {
+				if e.st.defers[i].d != ins[0].st.defers[i].d || e.st.defers[i].guard != ins[0].st.defers[i].guard {
 					same = false
 				}
 			}
@@ -900,14 +987,16 @@ func (g *Gen) join(b *ssa.BasicBlock, ins []edge) *State {
 			var merged []deferEntry
 			for _, d := range order {
 				var alts []string
+				var vals map[ssa.Value]Val
 				for i, e := range ins {
 					for _, de := range e.st.defers {
 						if de.d == d {
 							alts = append(alts, and(conds[i], de.guard))
+							vals = de.vals
 						}
 					}
 				}
-				merged = append(merged, deferEntry{d, g.defBool("dg", or(alts...))})
+				merged = append(merged, deferEntry{d, g.defBool("dg", or(alts...)), vals})
 			}
 			res.defers = merged
 		}
@@ -939,7 +1028,7 @@ func (g *Gen) phis(b *ssa.BasicBlock, ins []edge, res *State) {
 		if len(vals) == 0 {
 			g.unsupported("phi without incoming value")
 		}
-		g.regs[phi] = g.mergeVals("phi", phi.Type(), vals, conds)
+		res.regs[phi] = g.mergeVals("phi", phi.Type(), vals, conds)
 	}
 }
 
@@ -1205,7 +1294,7 @@ func (g *Gen) havocLoop(li *loopInfo, base *State) *State {
 			break
 		}
 		v, inv := g.freshVal(phi.Type(), "phi")
-		g.regs[phi] = v
+		st.regs[phi] = v
 		g.assume(st, inv)
 		g.assume(st, g.allocatedInv(st, v, phi.Type()))
 	}
@@ -1278,6 +1367,17 @@ func (g *Gen) allocatedInv(st *State, v Val, t types.Type) string {
 }
 
 func (g *Gen) addEdge(from, to *ssa.BasicBlock, st *State, cond string) {
+	if g.unroll > 0 {
+		k := g.curIter
+		if to.Dominates(from) {
+			k++ // back edge: next copy
+			if k > g.unroll {
+				return
+			}
+		}
+		g.uincoming[unode{to, k}] = append(g.uincoming[unode{to, k}], edge{from, st, cond})
+		return
+	}
 	if li := g.loops[to]; li != nil && to.Dominates(from) {
 		// back edge: invariant preserved
 		g.checkInvariants(li, edge{from, st, cond}, "invariant-preserved")
@@ -1322,4 +1422,101 @@ func heldConjuncts(e Expr) []Expr {
 		}
 	}
 	return nil
+}
+
+// ---------- concretisation: which terms describe the function's inputs ----------
+
+type inputTerm struct {
+	path string
+	term string
+}
+
+const modelElems = 48 // leading elements of slices / strings read back from a model
+
+func (g *Gen) inputTerms() []inputTerm {
+	if g.inputCache != nil {
+		return g.inputCache
+	}
+	var out []inputTerm
+	seen := map[string]bool{}
+	var walk func(path string, v Val, t types.Type, depth int)
+	walk = func(path string, v Val, t types.Type, depth int) {
+		switch x := v.(type) {
+		case IntV:
+			out = append(out, inputTerm{path, x.T})
+		case BoolV:
+			out = append(out, inputTerm{path, x.T})
+		case SliceV:
+			out = append(out, inputTerm{path + ".len", x.Len}, inputTerm{path + ".cap", x.Cap}, inputTerm{path + ".nil", "(= " + x.Ref + " 0)"}, inputTerm{path + ".off", x.Off})
+			lv := g.leaves(x.Elem)
+			if len(lv) == 1 && (lv[0].sort == "Int" || lv[0].sort == "Bool") {
+				h := g.heapTerm(g.entry, heapKey(typeKey(x.Elem), nil, lv[0].suffix), nestSort(2, lv[0].sort))
+				for i := 0; i < modelElems; i++ {
+					out = append(out, inputTerm{fmt.Sprintf("%s[%d]", path, i), fmt.Sprintf("(select (select %s %s) (+ %s %d))", h, x.Ref, x.Off, i)})
+				}
+			} else if depth < 2 {
+				for i := 0; i < 4; i++ {
+					p := PtrV{RootKey: typeKey(x.Elem), Ref: x.Ref, Idx: fmt.Sprintf("(+ %s %d)", x.Off, i), Elem: x.Elem}
+					walk(fmt.Sprintf("%s[%d]", path, i), g.loadHeap(g.entry, p), x.Elem, depth+1)
+				}
+			}
+		case StrV:
+			out = append(out, inputTerm{path + ".len", x.Len}, inputTerm{path + ".off", x.Off})
+			for i := 0; i < modelElems; i++ {
+				out = append(out, inputTerm{fmt.Sprintf("%s[%d]", path, i), fmt.Sprintf("(select %s (+ %s %d))", x.Arr, x.Off, i)})
+			}
+		case PtrV:
+			if x.Cell != nil || depth >= 3 {
+				return
+			}
+			out = append(out, inputTerm{path + ".nil", "(= " + x.Ref + " 0)"})
+			key := x.RootKey + "@" + x.Ref + fmt.Sprint(len(x.Steps))
+			if seen[key] {
+				return
+			}
+			seen[key] = true
+			if _, ok := x.Elem.Underlying().(*types.Struct); ok {
+				walk(path, g.loadHeap(g.entry, x), x.Elem, depth+1)
+			}
+		case StructV:
+			st, ok := t.Underlying().(*types.Struct)
+			if !ok {
+				return
+			}
+			for i, f := range x.F {
+				walk(path+"."+st.Field(i).Name(), f, st.Field(i).Type(), depth)
+			}
+		case IfaceV:
+			out = append(out, inputTerm{path + ".nil", "(= " + x.Tag + " 0)"})
+		}
+	}
+	save := g.lines
+	for i, p := range g.fn.Params {
+		walk(p.Name(), g.entryParam(i), p.Type(), 0)
+	}
+	if g.spec != nil {
+		for _, gd := range g.spec.Ghosts {
+			if v, ok := g.entry.ghosts[gd.Name]; ok && gd.Init == nil {
+				switch x := v.(type) {
+				case IntV:
+					out = append(out, inputTerm{"ghost:" + gd.Name, x.T})
+				case BoolV:
+					out = append(out, inputTerm{"ghost:" + gd.Name, x.T})
+				}
+			}
+		}
+	}
+	// declarations introduced while walking (lazily created entry heaps) must precede the queries: they were
+	// appended to g.lines; keep them (they are declarations only)
+	_ = save
+	g.inputCache = out
+	return out
+}
+
+func (g *Gen) entryParam(i int) Val {
+	p := g.fn.Params[i]
+	if v, ok := g.entry.regs[p]; ok {
+		return v
+	}
+	return g.paramVals[p.Name()]
 }
